@@ -18,6 +18,8 @@ Decides:
  H item copy       HelpItem::from(&Item) maps each Item variant to the same-named HelpItem variant copying
                    name/metavar/help/env unchanged.
  N first names     ShortLong::try_from reads short[0]/long[0] of the vectors matches_arg searches.
+ C cursor          render_console / Doc::first_line advance the payload cursor by the token length exactly once on every way
+                   through the Text arm (also when the text is skipped): otherwise later names and help are cut at wrong offsets.
  O order           render_help writes descr, usage, header, item groups (parser meta then help/version meta), footer in
                    that order.
 Does not decide: de-duplication and grouping outcomes for particular shapes."""
